@@ -518,7 +518,7 @@ pub fn run(r: &mut Runner) -> &'static str {
               EVERY cut 0..len-1 x the entry points of that version (v1: bytes and &str) and the auto-detecting one; then a receiver simulation over header ++ trailer with read sizes {all 1, one read, 1..7, 1..4096} \
               that re-parses the growing buffer with HeaderResult::parse and stops at the first complete result. oracle: each prefix is an Err flagged incomplete; the receiver stops exactly when the header is complete \
               with the one-shot result; trait clause on arbitrary bytes and on every error variant built directly: is_complete == !is_incomplete, Ok never incomplete. \
-              non-trivial = an accepted header (all of its cuts are tried); distinct by SipHash of (header, trailer, split seed)"
+              non-trivial = an accepted header (all of its cuts are tried); distinct by SipHash of (header, trailer, split seed) Added later: prefixes of the wire header even when fewer header bytes are reported, a text (&str and FromStr) receiver, a receiver on a reused buffer that held another connection's unfinished header."
         .into();
     r.assumptions.push("conditioned on acceptance by the implementation (C01/C02 own acceptance); v1 lines restricted to US-ASCII as the statement says".into());
     let n = r.n(60_000, 1_500_000);
